@@ -337,13 +337,15 @@ XalanNamespacesStack::prefixIsPresentLocal(const XalanDOMString&    thePrefix)
 void
 XalanNamespacesStack::clear()
 {
-    // Since we always keep one dummy entry at the beginning,
-    // swap with an OutputContextStackType instance of size 1.
-    NamespacesStackType(m_resultNamespaces.getMemoryManager(), 1 ).swap(m_resultNamespaces);
+    // This is called when cleaning up, including from destructors,
+    // so it must not allocate memory.  Reset the entries in use, and
+    // go back to the dummy entry we always keep at the beginning.
+    while (m_stackPosition != m_stackBegin)
+    {
+        (*m_stackPosition).reset();
 
-    m_stackBegin = m_resultNamespaces.begin();
-
-    m_stackPosition = m_stackBegin;
+        --m_stackPosition;
+    }
 
     m_createNewContextStack.clear();
 }
